@@ -296,6 +296,7 @@ void error_handler (const char *err) {
    * "uncatchable" marks (eval cost, stack full) have done their job. Left set, they
    * would make the next catch() in an unrelated evaluation refuse an ordinary error.
    */
+  note_delivered_error_state ();
   clear_error_state ();
 
   if (current_error_context)
